@@ -44,6 +44,8 @@ def norm(spec):
     s.setdefault("err", "default")
     s.setdefault("layout", "grouped")
     s.setdefault("cap_alias", False)
+    s.setdefault("foreign", None)  # a foreign functools.wraps decorator on the leaf: None|top|mid|bottom
+    s.setdefault("post_old", "all")  # do postcondition *conditions* ask for OLD ("all") or only the error factories ("none")
     for lv in s["levels"]:
         lv.setdefault("pre", 0)
         lv.setdefault("post", 0)
@@ -57,7 +59,21 @@ def norm(spec):
 # rendering
 
 PRELUDE = '''\
+import functools
+import inspect
 import icontract
+def fw(fn):
+    if inspect.iscoroutinefunction(fn):
+        @functools.wraps(fn)
+        async def w(*a, **k):
+            LOG.append(("foreign",))
+            return await fn(*a, **k)
+    else:
+        @functools.wraps(fn)
+        def w(*a, **k):
+            LOG.append(("foreign",))
+            return fn(*a, **k)
+    return w
 LOG = []
 T = {}
 CUR = {}
@@ -113,6 +129,13 @@ def _finish_body(a):
 '''
 
 
+def sees_old(spec, li):
+    """Does a postcondition declared at level ``li`` have snapshots available (own or inherited)?"""
+    if spec["kind"] in ("func", "init", "new"):
+        return bool(spec["levels"][li]["snap"]) and spec["levels"][li]["defines"]
+    return any(spec["levels"][k]["snap"] and spec["levels"][k]["defines"] for k in range(li + 1))
+
+
 def cond_names(spec, li):
     lv = spec["levels"][li]
     return (
@@ -143,12 +166,7 @@ def render(spec):
     out = [PRELUDE]
     w = out.append
     nlev = len(spec["levels"])
-    any_snap_upto = []
-    seen_snap = False
-    for li in range(nlev):
-        if spec["levels"][li]["snap"] and spec["levels"][li]["defines"]:
-            seen_snap = True
-        any_snap_upto.append(seen_snap)
+    any_snap_upto = [sees_old(spec, li) for li in range(nlev)]
 
     # condition functions, error classes
     for li in range(nlev):
@@ -160,9 +178,12 @@ def render(spec):
             if spec["style"] == "def":
                 w("def {0}({1}):\n    LOG.append(('pre', '{0}', _same({1})))\n    return _truth('{0}')\n".format(name, A))
         for name in posts:
-            params = "result, {}".format(A) + (", OLD" if any_snap_upto[li] else "")
-            oldv = "OLD" if any_snap_upto[li] else "None"
-            w("def EF_{0}({1}):\n    LOG.append(('errfac', '{0}', _same({2})))\n    return E_{0}('fac')\n".format(name, params, A))
+            takes_old = any_snap_upto[li] and spec["post_old"] == "all"
+            params = "result, {}".format(A) + (", OLD" if takes_old else "")
+            eparams = "result, {}".format(A) + (", OLD" if any_snap_upto[li] else "")
+            oldv = "OLD" if takes_old else "None"
+            eoldv = "OLD" if any_snap_upto[li] else "None"
+            w("def EF_{0}({1}):\n    LOG.append(('errfac', '{0}', _same({2}), _old({3})))\n    return E_{0}('fac')\n".format(name, eparams, A, eoldv))
             if spec["style"] == "def":
                 w(
                     "def {0}({1}):\n    LOG.append(('post', '{0}', result is CUR.get('R'), _same({2}), _content({2}), _old({3})))\n"
@@ -190,7 +211,7 @@ def render(spec):
         for name in posts:
             if spec["style"] == "def":
                 c = name
-            elif any_snap_upto[li]:
+            elif any_snap_upto[li] and spec["post_old"] == "all":
                 c = "lambda result, {0}, OLD: lam('post', '{1}', {0}, result, OLD)".format(A, name)
             else:
                 c = "lambda result, {0}: lam('post', '{1}', {0}, result)".format(A, name)
@@ -209,6 +230,9 @@ def render(spec):
                 if b:
                     mixed.append(b)
             lines = list(reversed(snp)) + list(reversed(mixed))
+        if spec["foreign"] and li == nlev - 1:
+            pos = {"top": 0, "bottom": len(lines), "mid": len(lines) - 1 if len(lines) >= 2 else 0}[spec["foreign"]]
+            lines.insert(pos, "@fw")
         return "".join(indent + ln + "\n" for ln in lines)
 
     adef = "async def" if spec["is_async"] else "def"
@@ -339,12 +363,13 @@ def expected(spec, truth, body_mode="ret_obj", mut="none"):
     tv = lambda n: truth.get(n, True)
     A_content0 = (5,) if kind in SELF_PRIMARY else (0,)
 
-    def viol(name, ev):
+    def viol(name, ev, fac_extra=()):
         # a violated lambda condition is re-evaluated once to build the message
+        # (the re-evaluation is "at most once": the re-evaluator skips sub-expressions it can not resolve)
         if lam_re:
-            log.append(ev)
+            log.append(("?", ev))
         if spec["err"] == "fac":
-            log.append(("errfac", name, True))
+            log.append(("errfac", name, True) + tuple(fac_extra))
         return log, ("exc", name)
 
     class_kind = kind != "func"
@@ -355,8 +380,27 @@ def expected(spec, truth, body_mode="ret_obj", mut="none"):
             log.append(ev)
             if not tv(n):
                 return viol(n, ev)
+    nown = sum(spec["levels"][-1][k] for k in ("pre", "post", "snap"))
+    leaf_called = target == len(spec["levels"]) - 1
+    foreign = spec["foreign"] if leaf_called else None
+    if foreign == "mid" and nown < 2:
+        foreign = "top"
+    if foreign and nown == 0:
+        foreign = "bottom"  # a bare wrapped function: inherited contracts are checked around the foreign wrapper
+    if foreign == "mid":
+        # the decorator sits between contract decorators; all contracts live in the single innermost checker
+        foreign = "top"
+    if foreign == "top":
+        log.append(("foreign",))
     failed = None
     for g in groups:
+        if failed is not None:
+            # The statement does not say whether the error of a group that failed is prepared before the next
+            # group is tried (the implementation does: message / error factory); both are accepted.
+            if lam_re:
+                log.append(("?", failed[1]))
+            if spec["err"] == "fac":
+                log.append(("?", ("errfac", failed[0], True)))
         failed = None
         for n in g:
             ev = ("pre", n, True)
@@ -374,6 +418,8 @@ def expected(spec, truth, body_mode="ret_obj", mut="none"):
         for n in snaps:
             log.append(("cap", n, True, A_content0))
             old.append(n)
+    if foreign == "bottom":
+        log.append(("foreign",))
     log.append(("body", "f" if kind == "func" else "L{}".format(target), True))
     if body_mode.startswith("raise"):
         return log, ("exc", "BODY")
@@ -386,14 +432,13 @@ def expected(spec, truth, body_mode="ret_obj", mut="none"):
     for n in posts:
         # a postcondition sees OLD only if a snapshot exists at or below its own level
         li = int(n[1 : n.index("_")])
-        sees_old = any(spec["levels"][k]["snap"] and spec["levels"][k]["defines"] for k in range(li + 1))
         ov = None
-        if sees_old:
+        if sees_old(spec, li):
             ov = oldv if old is not None else None
-        ev = ("post", n, True, True, content, ov)
+        ev = ("post", n, True, True, content, ov if spec["post_old"] == "all" else None)
         log.append(ev)
         if not tv(n):
-            return viol(n, ev)
+            return viol(n, ev, (ov,))
     if has_inv and kind in INV_AFTER:
         for n in invs:
             ev = ("inv", n)
@@ -567,3 +612,58 @@ def replay_script(spec, truth, body_mode, mut, shape):
     drv.append("        print('returned', r)\n    except BaseException as e:\n        print('raised', type(e).__name__, e)\n")
     drv.append("    print('LOG:')\n    for ev in LOG: print('  ', ev)\n")
     return src + "".join(drv)
+
+
+# ---------------------------------------------------------------------------------------------
+# generic comparison of one execution with the reference, projected on the roles a property speaks about
+
+
+def project(log, roles):
+    return [ev for ev in log if (ev[1][0] if ev[0] == "?" else ev[0]) in roles]
+
+
+def feat(spec, shape="-", body_mode="-", mut="-"):
+    spec = norm(spec)
+    return {
+        "kind": spec["kind"], "is_async": spec["is_async"], "dbc": spec["dbc"], "nlev": len(spec["levels"]),
+        "pre": "/".join(str(lv["pre"]) for lv in spec["levels"]),
+        "post": "/".join(str(lv["post"]) for lv in spec["levels"]),
+        "snap": "/".join(str(lv["snap"]) for lv in spec["levels"]),
+        "inv": "/".join(str(lv["inv"]) for lv in spec["levels"]),
+        "defines": "/".join("1" if lv["defines"] else "0" for lv in spec["levels"]),
+        "style": spec["style"], "err": spec["err"], "layout": spec["layout"], "cap_alias": spec["cap_alias"],
+        "post_old": spec["post_old"], "foreign": spec["foreign"],
+        "shape": shape, "body": body_mode, "mut": mut,
+    }
+
+
+def limited_truths(names, max_full=6, max_falsy=2):
+    """All assignments if few names, else all assignments with at most ``max_falsy`` falsy conditions."""
+    if len(names) <= max_full:
+        for t in truth_tables(names):
+            yield t
+        return
+    for k in range(0, max_falsy + 1):
+        for falsy in itertools.combinations(names, k):
+            yield {n: (n not in falsy) for n in names}
+
+
+def first_diff(exp, obs):
+    """First difference between expected and observed logs; ("?", ev) entries of ``exp`` are optional."""
+    i = j = 0
+    while i < len(exp):
+        a = exp[i]
+        if a[0] == "?":
+            if j < len(obs) and obs[j] == a[1]:
+                j += 1
+            i += 1
+            continue
+        if j >= len(obs):
+            return j, a, None
+        if a != obs[j]:
+            return j, a, obs[j]
+        i += 1
+        j += 1
+    if j < len(obs):
+        return j, None, obs[j]
+    return None
